@@ -182,6 +182,10 @@ CleanRunPassesAll == (AllDone /\ env.ft = 0 /\ env.eos = 0 /\ env.bad = 0) => to
 \* (5) a failure is visible to the caller: the token holds the cancel value when the batch ends
 FailureLeavesCancel == (AllDone /\ (env.ft # 0 \/ env.bad # 0 \/ env.eos # 0)) => token = CANCEL
 
+\* NOT a property of the protocol (false in every clean run): used only by the self-test of the
+\* counterexample-confirmation path (KZMC_E1B_EXTRA_INVARIANT=TokenNeverN)
+TokenNeverN == token # N
+
 \* (3) every task finishes and the call returns, under weak fairness of each task
 Termination == <>AllDone
 =============================================================================
